@@ -73,6 +73,11 @@ CHECKS = {
             "TLC enumerates the 70 message shapes of the grammar (type x block x proof x prepare senders x votes x votes with proof); for each the harness draws field values (64-bit classes, lengths 0/1/32/255/256 and random), builds the message with the real factory, converts to raw and parses back twice; TLC checks the full accessor dump is unchanged, parsing is deterministic, every signature that verified still verifies, and that nested proofs/votes equal the PREPREPARE/PREPARE/VIEW_CHANGE messages that went into the factory; same for block proofs generated from up to 20 commit messages.",
             "Trusted: the generated readers' accessors (bytes no accessor exposes are invisible), PRF key manager producing arbitrary-length signatures.",
             "DESIGN.md 5 C20"),
+    "C05": ("model_checking",
+            "TLC trace validation (Trace_Cluster.tla, C05 verdict formulas + conformance with LHNode.tla) of real nodes run through an adversarial asynchronous prefix followed by a timely fair schedule on a simulated clock",
+            "Real nodes (committees of 4..7, weights, Byzantine weight <= f, crashed correct members while the live ones keep quorum weight) go through a random adversarial prefix, are brought to one height, then the harness runs the timely fair schedule: all messages among live correct nodes delivered before any timer, timers 2^view on a simulated clock with arbitrary phases, earliest deadline first, Byzantine members still injecting. TLC validates every step against the node specification and the verdict: the deciding height is committed within a bound of timer rounds and every live acceptor of the committing view's post-stabilisation proposal commits.",
+            "Trusted: the timing model (zero message delay relative to timers), the heuristic bound standing in for 'eventually' (2x the analytic bound + 10; measured worst case 0.82 of the analytic bound), harness as for the protocol family. No TLC liveness proof of the node specification is claimed yet.",
+            "DESIGN.md 5 C05"),
 }
 
 PENDING_REASON = "check not built yet in this round; planned per DESIGN.md section 5 (no claim is made until a sound check exists)"
